@@ -178,10 +178,11 @@ def gen_texts(out, thorough):
     # L2: full single-atom scalar alphabet, all derivations with <= 5 tokens (quick) / medium alphabet <= 7 (thorough)
     full_scalars = [jstr(b'')] + [jstr(a) for a in STR_ATOMS] + NUMBERS + LITERALS
     full_keys = [jstr(b'')] + [jstr(a) for a in STR_ATOMS]
-    val = texts_by_tokens(full_scalars, full_keys, 5)
-    for n in range(1, 6):
+    nfull = 6 if thorough else 5
+    val = texts_by_tokens(full_scalars, full_keys, nfull)
+    for n in range(1, nfull + 1):
         for toks in val[n]:
-            out.parse_case('L2-full<=5tok', b''.join(toks))
+            out.parse_case('L2-full<=%dtok' % nfull, b''.join(toks))
     med_scalars = [jstr(b'')] + [jstr(a) for a in STR_ATOMS_MED] + NUMBERS_MED + LITERALS
     med_keys = [jstr(b''), jstr(b'a'), jstr(b'\\u0061'), jstr(b'\\n'), jstr('\u00e9'.encode()), jstr(b'\\u00e9')]
     nmed = 7
@@ -206,8 +207,8 @@ def gen_texts(out, thorough):
         for toks in val3[n]:
             for w in WS:
                 for g in range(len(toks) + 1):
-                    out.parse_case('L4-whitespace', b''.join(toks[:g]) + w + b''.join(toks[g:]), mut=False)
-                out.parse_case('L4-whitespace', w + w.join(toks) + w, mut=(n <= 5))
+                    out.parse_case('L4-whitespace', b''.join(toks[:g]) + w + b''.join(toks[g:]), mut=thorough)
+                out.parse_case('L4-whitespace', w + w.join(toks) + w, mut=(thorough or n <= 5))
 
     # L5: limits.  (a) every reduced text with <= 9 tokens under every single small limit
     small = []
@@ -242,16 +243,16 @@ def gen_texts(out, thorough):
                     if core == b'' and sh and sh[-1] == 'o':
                         # innermost empty object written as {} : drop the '"k":' of the last level
                         pre = pre[:-len(b'"k":')]
-                    out.parse_case('L5b-depth', pre + core + post, lim, mut=False)
+                    out.parse_case('L5b-depth', pre + core + post, lim, mut=thorough)
     elems = [b'0', jstr(b'a'), b'[]', b'null']
     for amax in (0, 1, 2, 3, 4):
         lim = DEFAULT_LIMITS[:1] + (amax,) + DEFAULT_LIMITS[2:]
         for n in range(0, amax + 3):
             for combo in itertools.product(elems, repeat=n) if n <= 4 else [(e,) * n for e in elems]:
                 arr = b'[' + b','.join(combo) + b']'
-                out.parse_case('L5b-array-items', arr, lim, mut=False)
-                out.parse_case('L5b-array-items', b'[' + arr + b']', lim, mut=False)
-                out.parse_case('L5b-array-items', b'{"k":' + arr + b'}', lim, mut=False)
+                out.parse_case('L5b-array-items', arr, lim, mut=thorough)
+                out.parse_case('L5b-array-items', b'[' + arr + b']', lim, mut=thorough)
+                out.parse_case('L5b-array-items', b'{"k":' + arr + b'}', lim, mut=thorough)
     knames = [b'a', b'b', b'c', b'd', b'e', b'f', b'g']
     for mmax in (0, 1, 2, 3, 4):
         lim = DEFAULT_LIMITS[:2] + (mmax,) + DEFAULT_LIMITS[3:]
@@ -260,21 +261,21 @@ def gen_texts(out, thorough):
             seqs = itertools.product(knames[:n], repeat=n) if n <= 4 else [tuple(knames[:n]), tuple(knames[:n - 1]) + (b'a',)]
             for seq in seqs:
                 obj = b'{' + b','.join(jstr(k) + b':0' for k in seq) + b'}'
-                out.parse_case('L5b-members', obj, lim, mut=False)
-                out.parse_case('L5b-members', b'[' + obj + b']', lim, mut=False)
+                out.parse_case('L5b-members', obj, lim, mut=thorough)
+                out.parse_case('L5b-members', b'[' + obj + b']', lim, mut=thorough)
     latoms = [b'a', b'\\n', b'\\u0041', b'\\u00e9', '\u00e9'.encode(), b'\\u20ac', '\U0001F600'.encode(), b'\\ud83d\\ude00']
     for smax in (0, 1, 2, 3, 4, 5):
         lim = DEFAULT_LIMITS[:3] + (smax,)
         for k in range(0, 5):
             for combo in itertools.product(latoms, repeat=k):
                 s = jstr(b''.join(combo))
-                out.parse_case('L5b-string-length', s, lim, mut=False)
-                out.parse_case('L5b-string-length', b'{' + s + b':0}', lim, mut=False)
+                out.parse_case('L5b-string-length', s, lim, mut=thorough)
+                out.parse_case('L5b-string-length', b'{' + s + b':0}', lim, mut=thorough)
         for k in range(5, smax + 3):
             s = jstr(b'a' * k)
-            out.parse_case('L5b-string-length', s, lim, mut=False)
-            out.parse_case('L5b-string-length', b'[' + s + b']', lim, mut=False)
-            out.parse_case('L5b-string-length', b'{' + s + b':0}', lim, mut=False)
+            out.parse_case('L5b-string-length', s, lim, mut=thorough)
+            out.parse_case('L5b-string-length', b'[' + s + b']', lim, mut=thorough)
+            out.parse_case('L5b-string-length', b'{' + s + b':0}', lim, mut=thorough)
     # (c) default limits: depth and array items
     for depth in (99, 100, 101, 102):
         for core in (b'', b'0'):
